@@ -522,8 +522,11 @@ func zzVMMake(name string, e *zzVMEnv) zzVMCase {
 			return ok
 		}
 	case "CALL", "CALL_VAR", "CALL_KW", "CALL_VAR_KW":
-		npos := zzChoice("npos", 4)
-		nnamed := zzChoice("nnamed", 3)
+		npos := zzChoice("npos", zzParam("call_npos", 2, 4))
+		if zzParam("call_npos", 2, 4) == 2 {
+			npos *= 3 // quick: 0 or 3 positional arguments
+		}
+		nnamed := zzChoice("nnamed", zzParam("call_nnamed", 2, 3))
 		rec := NewBuiltin("rec", func(thread *Thread, b *Builtin, args Tuple, kwargs []Tuple) (Value, error) {
 			e.called++
 			e.callArgs = append(Tuple{}, args...)
@@ -611,7 +614,7 @@ func zzVMMake(name string, e *zzVMEnv) zzVMCase {
 //verif:unwind 100
 func zzH01_vm_stack() {
 	name := zzVMCaseNames[zzChoice("case", len(zzVMCaseNames))]
-	d := zzChoice("fillers", zzParam("max_fillers", 2, 3))
+	d := zzChoice("fillers", zzParam("filler_depths", 1, 3))
 	av, bv := int64(zzI8("a")), int64(zzI8("b"))
 	switch name {
 	case "LTLT", "GTGT":
